@@ -61,6 +61,10 @@ func configs14(tier string) []xplore.Config {
 	// the re-added target ends up holding the leaf, the whole-target delete of
 	// the old incarnation must have been announced before that update
 	out = append(out, xplore.Config{Name: "X=t1 W(t1)=remove || W'(t1)=add;upd a/b W(t2)=upd a/b (no leaf of the re-added target may be missing)", Bound: bound, Data: cfg14{w1: []wop{{"remove", ""}}, w2: []wop{{"upd", "a/b"}}, w1b: []wop{{"add", ""}, {"upd", "a/b"}}, missingOnly: true}})
+	// the collector's periodic metadata refresh (it walks every target and
+	// announces changed meta leaves) racing the Remove of a target: nothing is
+	// announced for the removed target after its whole-target delete
+	out = append(out, xplore.Config{Name: "X=t1 refresh=UpdateMetadata || W'(t1)=remove W(t2)=upd a/b (periodic metadata refresh racing the Remove)", Bound: bound - 1, Data: cfg14{w1: []wop{{"refresh", ""}}, w2: []wop{{"upd", "a/b"}}, w1b: []wop{{"remove", ""}}}})
 	for _, uo := range []bool{false, true} {
 		out = append(out, xplore.Config{Name: fmt.Sprintf("X=t1 updates_only=%v W(t1)=remove W(t2)=upd a/b, a client subscribed below X's path leaves first", uo), Bound: bound - 1, Data: cfg14{w1: []wop{{"remove", ""}}, w2: []wop{{"upd", "a/b"}}, updatesOnly: uo, nestedLeaver: true}})
 	}
